@@ -6,7 +6,7 @@ DESCRIPTION = {
     "rule": ("A callee session and a caller session (both frameworks, every serializer) are joined through a scripted router that rewrites ERROR(INVOCATION) into ERROR(CALL). "
              "Hypothesis draws the exception kind {ApplicationError(uri,*a,**kw), class decorated with @wamp.error, class registered by define(cls,uri), undefined class, class "
              "whose constructor is incompatible with the transported args/kwargs or raises, class hierarchies: define()d base + define()d subclass, define()d base + unregistered subclass "
-             "(an unregistered class: generic URI), decorated base + decorated subclass registered in either order}, positional/keyword payloads (bytes, nesting, unicode, |int|<=2^53), traceback_app "
+             "(an unregistered class: generic URI), decorated base + decorated subclass registered in either order, classes deriving from TypeError; procedures registered with or without check_types=True}, positional/keyword payloads (bytes, nesting, unicode, |int|<=2^53), traceback_app "
              "on/off, whether the caller registry knows the class, and synchronous vs asynchronous (pending result failed later) endpoints.  Oracle: on the wire the ERROR carries "
              "the registered / carried / generic runtime-error URI, args == list(exc.args), kwargs == the exception's kwargs (+ 'traceback' iff enabled); the caller's pending call "
              "fails exactly once with an instance of the class registered for that URI built from those args/kwargs, else with ApplicationError carrying URI, args and kwargs; the "
@@ -72,10 +72,11 @@ def strategy():
     vals = st.lists(W.values, max_size=3)
     kws = st.dictionaries(st.sampled_from(["a", "b", "reason", "código", "x_1"]), W.values, max_size=3)
     return st.fixed_dictionaries({
-        "kind": st.sampled_from(["app", "app", "decorated", "defined", "undefined", "undefined-builtin", "nokwargs", "onearg", "exploding", "subclass-defined", "subclass-undefined", "decorated-subclass", "decorated-base"]),
+        "kind": st.sampled_from(["app", "app", "decorated", "defined", "undefined", "undefined-builtin", "nokwargs", "onearg", "exploding", "subclass-defined", "subclass-undefined", "decorated-subclass", "decorated-base", "defined-typeerror", "undefined-typeerror"]),
         "uri": st.sampled_from(["com.myapp.error.custom", "wamp.error.not_authorized", "com.myapp.error.decorated", "a.b"]),
         "args": vals, "kwargs": kws, "tb": st.booleans(), "caller_knows": st.booleans(), "async_endpoint": st.booleans(),
-        "ser": st.sampled_from(["json", "msgpack", "cbor", "ubjson"]), "own_tb": st.sampled_from([False, False, False, True])})
+        "ser": st.sampled_from(["json", "msgpack", "cbor", "ubjson"]), "own_tb": st.sampled_from([False, False, False, True]),
+        "check_types": st.sampled_from([False, False, True])})      # the procedure is registered with check_types=True (the library wraps the endpoint)
 
 
 def check_flow(c):
@@ -163,6 +164,23 @@ def check_flow(c):
 
             def make():
                 return Sub(*args, **kwargs)
+        elif kind == "defined-typeerror":
+            # an application exception class that happens to derive from TypeError (matters when the endpoint is wrapped for type checking)
+            class UnitError(TypeError):
+                def __init__(self, *args, **kwargs):
+                    TypeError.__init__(self, *args)
+                    self.kwargs = kwargs
+            cls = UnitError
+            callee.session.define(cls, uri)
+
+            def make():
+                return cls(*args, **kwargs)
+        elif kind == "undefined-typeerror":
+            kwargs = {}
+            expect_uri = "wamp.error.runtime_error"
+
+            def make():
+                return TypeError(*args)
         elif kind == "undefined":
             class Undefined(Exception):
                 pass
@@ -192,7 +210,10 @@ def check_flow(c):
                 pending.append(f)
                 return f
             raise make()
-        tr_reg = callee.track(callee.call(lambda: callee.session.register(endpoint, "com.x.proc")))
+        if c.get("check_types"):
+            tr_reg = callee.track(callee.call(lambda: callee.session.register(endpoint, "com.x.proc", check_types=True)))
+        else:
+            tr_reg = callee.track(callee.call(lambda: callee.session.register(endpoint, "com.x.proc")))
         callee.feed(M.Registered(callee.t.sent[-1].request, 555))
         if not tr_reg.done or not tr_reg.ok:
             raise HarnessError("registration failed")
@@ -244,7 +265,7 @@ def check_flow(c):
         if c["tb"]:
             full_kwargs["traceback"] = tb
         registered_on_caller = c["caller_knows"] and cls is not None
-        constructible = registered_on_caller and kind in ("decorated", "defined", "subclass-defined", "decorated-subclass", "decorated-base") or (registered_on_caller and kind == "nokwargs" and not c["tb"]) or \
+        constructible = registered_on_caller and kind in ("decorated", "defined", "subclass-defined", "decorated-subclass", "decorated-base", "defined-typeerror") or (registered_on_caller and kind == "nokwargs" and not c["tb"]) or \
             (registered_on_caller and kind == "onearg" and not c["tb"] and len(args) == 1)
         if constructible:
             if not isinstance(got, cls) or (kind == "decorated-base" and type(got) is not cls):
@@ -285,7 +306,7 @@ def flows(col, seed, n):
                 raise Violation("C18|exception|" + exc_key(e), repr(e), c)
             raise
         nt = (c["args"] and c["kwargs"] and path == "class") or (path == "fallback" and c["kind"] not in ("app",))
-        col.case(bool(nt), dig=c, cls=["kind:" + c["kind"], "path:" + path, "ser:" + c["ser"]] + (["traceback"] if c["tb"] else []) + (["async-endpoint"] if c["async_endpoint"] else []),
+        col.case(bool(nt), dig=c, cls=["kind:" + c["kind"], "path:" + path, "ser:" + c["ser"]] + (["traceback"] if c["tb"] else []) + (["async-endpoint"] if c["async_endpoint"] else []) + (["check_types"] if c.get("check_types") else []),
                  sample=c)
     run_hypothesis(col, "flows", strategy(), body, n, seed)
 
